@@ -9,6 +9,10 @@
 #include "hashchain.c"
 #include "signature.c"
 #include "contracts/verification_rule_c01_md.h"
+#ifdef MD_PLAIN
+/* plain mode (no contract instrumentation): ASSUMED body = the contract of contracts/hash_alg.h, enforced on hash.c by C17.hashalg.* */
+unsigned int KSI_getHashLength(KSI_HashAlgorithm algo_id) { return spec_hashalg_len((long long)algo_id); }
+#endif
 #include "verification_rule.c"
 
 void harness(void) {
@@ -16,6 +20,12 @@ void harness(void) {
 	md_world_init();
 	info = VR_OPT(&g_vr_info); result = VR_OPT(&g_vr_res);
 	res = KSI_VerificationRule_AggregationChainMetaDataVerification(info, result);
+#ifdef MD_PLAIN    /* no function-contract instrumentation: the harness asserts the same postcondition itself (no frame check) */
+	__CPROVER_assert(result == NULL ? res == KSI_INVALID_ARGUMENT : VR_OUTCOME(md_exp_walk(info), res, result), "postcondition: outcome == verdict of the monitor (FAIL INT-11 iff a record is refused, NA iff one cannot be split)");
+	__CPROVER_assert(IMPLIES(result != NULL && VR_INFO_OK(info) && res == KSI_OK && result->resultCode == KSI_VER_RES_OK,
+		g_mdc.ccalls == MD_N_EFF(info->signature) && (g_mdc.ccalls == 0 || g_md.lcalls == g_mdc.nlinks) && !g_md.fail && !g_md.na), "postcondition: OK only after every link of every chain was inspected");
+	__CPROVER_assert(g_md.elref == 0, "postcondition: the reference on a found padding element is released on every path");
+#endif
 	REACH("returned");
 	if (res == KSI_OK && result != NULL && result->resultCode == KSI_VER_RES_OK) REACH("verdict OK");
 	if (res == KSI_OK && result != NULL && result->resultCode == KSI_VER_RES_OK && g_mdc.ccalls > 1 && g_md.lcalls > 1) REACH("verdict OK for several chains and links");
